@@ -484,4 +484,193 @@ func init() {
 			}
 		},
 	})
+
+	register(&Rule{
+		Name:  "COST-cap",
+		Doc:   "no full slice expression clips the capacity of a slice that is stored back into a field which is appended to elsewhere (the next append would reallocate and copy the whole slice)",
+		Props: []string{"C20"},
+		Floor: 1,
+		Run: func(c *Ctx, s *core.Sink) {
+			appended := map[string]token.Pos{}
+			for _, f := range c.P.ModFns {
+				for _, b := range f.Blocks {
+					for _, ins := range b.Instrs {
+						if call, ok := ins.(*ssa.Call); ok {
+							if bi, ok := call.Common().Value.(*ssa.Builtin); ok && bi.Name() == "append" {
+								if ld, ok := call.Common().Args[0].(*ssa.UnOp); ok {
+									if fa, ok := ld.X.(*ssa.FieldAddr); ok {
+										appended[fieldElem(fa.X.Type(), fa.Field)] = call.Pos()
+									}
+								}
+							}
+						}
+					}
+				}
+			}
+			var els []string
+			for el := range appended {
+				els = append(els, el)
+			}
+			sort.Strings(els)
+			bad := map[string]bool{}
+			for _, f := range c.P.ModFns {
+				for _, b := range f.Blocks {
+					for _, ins := range b.Instrs {
+						st, ok := ins.(*ssa.Store)
+						if !ok {
+							continue
+						}
+						fa, ok := st.Addr.(*ssa.FieldAddr)
+						if !ok {
+							continue
+						}
+						el := fieldElem(fa.X.Type(), fa.Field)
+						if _, isApp := appended[el]; !isApp {
+							continue
+						}
+						if sl, ok := st.Val.(*ssa.Slice); ok && sl.Max != nil {
+							bad[el] = true
+							s.Bad("cap/"+core.FuncName(f)+"/"+el, c.P.Pos(sl.Pos()), "capacity of "+el+" is clipped by a full slice expression although the field is appended to (at "+c.P.Pos(appended[el])+"): every later append reallocates the whole slice")
+						}
+					}
+				}
+			}
+			for _, el := range els {
+				if !bad[el] {
+					s.OK("cap/"+el, c.P.Pos(appended[el]), "appended field; no store clips its capacity")
+				}
+			}
+		},
+	})
+
+	register(&Rule{
+		Name:  "COST-nested",
+		Doc:   "inside a loop over a collection field, no call reaches a function that itself loops over the same collection field (work quadratic in the number of elements)",
+		Props: []string{"C20"},
+		Floor: 5,
+		Run: func(c *Ctx, s *core.Sink) {
+			// fields a function loops over (directly)
+			loopFields := func(f *ssa.Function) map[string]bool {
+				out := map[string]bool{}
+				for _, l := range loopsOf(f) {
+					if l.ConstBounded {
+						continue
+					}
+					for b := range l.Blocks {
+						for _, ins := range b.Instrs {
+							ia, ok := ins.(*ssa.IndexAddr)
+							if !ok {
+								continue
+							}
+							ld, ok := ia.X.(*ssa.UnOp)
+							if !ok {
+								continue
+							}
+							fa, ok := ld.X.(*ssa.FieldAddr)
+							if !ok {
+								continue
+							}
+							if t := termOf(ia.Index); t.base != nil {
+								if phi, ok := t.base.(*ssa.Phi); ok && phi.Block() == l.Header {
+									out[fieldElem(fa.X.Type(), fa.Field)] = true
+								}
+							}
+						}
+					}
+				}
+				return out
+			}
+			direct := map[*ssa.Function]map[string]bool{}
+			for _, f := range c.P.ModFns {
+				direct[f] = loopFields(f)
+			}
+			var trans func(f *ssa.Function, depth int, seen map[*ssa.Function]bool) map[string]string
+			trans = func(f *ssa.Function, depth int, seen map[*ssa.Function]bool) map[string]string {
+				out := map[string]string{}
+				if f == nil || seen[f] || depth > 3 {
+					return out
+				}
+				seen[f] = true
+				for el := range direct[f] {
+					out[el] = core.FuncName(f)
+				}
+				for _, b := range f.Blocks {
+					for _, ins := range b.Instrs {
+						if call, ok := ins.(ssa.CallInstruction); ok {
+							if cl := call.Common().StaticCallee(); cl != nil && c.P.InModule(cl) {
+								for el, via := range trans(cl, depth+1, seen) {
+									if _, ok := out[el]; !ok {
+										out[el] = via
+									}
+								}
+							}
+						}
+					}
+				}
+				return out
+			}
+			n := 0
+			for _, f := range c.P.ModFns {
+				if isInitializer(f) {
+					continue
+				}
+				for _, l := range loopsOf(f) {
+					if l.ConstBounded {
+						continue
+					}
+					// fields this loop ranges over
+					own := map[string]bool{}
+					for b := range l.Blocks {
+						for _, ins := range b.Instrs {
+							if ia, ok := ins.(*ssa.IndexAddr); ok {
+								if ld, ok := ia.X.(*ssa.UnOp); ok {
+									if fa, ok := ld.X.(*ssa.FieldAddr); ok {
+										if t := termOf(ia.Index); t.base != nil {
+											if phi, ok := t.base.(*ssa.Phi); ok && phi.Block() == l.Header {
+												own[fieldElem(fa.X.Type(), fa.Field)] = true
+											}
+										}
+									}
+								}
+							}
+						}
+					}
+					if len(own) == 0 {
+						continue
+					}
+					n++
+					var els []string
+					for el := range own {
+						els = append(els, el)
+					}
+					sort.Strings(els)
+					key := fmt.Sprintf("nested/%s/loop over %s", core.FuncName(f), strings.Join(els, ","))
+					bad := ""
+					var pos token.Pos = f.Pos()
+					for b := range l.Blocks {
+						for _, ins := range b.Instrs {
+							call, ok := ins.(ssa.CallInstruction)
+							if !ok {
+								continue
+							}
+							cl := call.Common().StaticCallee()
+							if cl == nil || !c.P.InModule(cl) {
+								continue
+							}
+							for el, via := range trans(cl, 0, map[*ssa.Function]bool{}) {
+								if own[el] {
+									bad = fmt.Sprintf("calls %s, which loops over %s again (in %s), once per element", cl.Name(), el, via)
+									pos = call.Pos()
+								}
+							}
+						}
+					}
+					s.Check(bad == "", key, c.P.Pos(pos), "no call inside the loop iterates over the same collection", bad)
+				}
+			}
+			if n == 0 {
+				s.Unknown("nested/none", "-", "no loop over a collection field found")
+			}
+		},
+	})
 }
